@@ -130,7 +130,7 @@ def run(ctx):
     corpus = common.VERIF / "corpus" / "c16_defs.json"
     if corpus.exists():
         defs += json.loads(corpus.read_text())
-    defs += defgen.systematic()
+    defs += defgen.systematic(ctx["tier"] == "thorough")
     for i in range(n_fam):
         defs += g.definition(i)
     scratch = ctx["build"] / f"c16_{ctx['seed']}_{ctx['tier']}"
